@@ -49,8 +49,11 @@ for d in sorted(os.listdir(os.path.join(V, "seeded"))):
                                   if f["target_check_rc"] == 2 else ""}
         else:                           # rounds 2 and 3: checks as they were when the agents of that round delivered
             r3 = d[3] in "ef"
-            meta["first_pass"] = {"what": ("checks as committed when the third-round changes were delivered (commit 4361130), before the third "
-                                           "strengthening") if r3 else
+            r4 = d[3] in "gh"
+            meta["first_pass"] = {"what": ("checks as committed when the fourth-round changes were delivered (commit bd962ca), before the "
+                                           "fourth strengthening") if r4 else
+                                          ("checks as committed when the third-round changes were delivered (commit 4361130 for C01-C03, C05, "
+                                           "C07-C09, C12-C14, C16, C17; commit 4759e5b for the others), before the third strengthening") if r3 else
                                           ("checks as committed when the second-round changes were delivered (commit bbd2bb2 + 1), before the "
                                            "second strengthening"), "caught_by": f.get("caught_by", []), "silent": f.get("silent", []),
                                   "reported": prop in f.get("caught_by", [])}
